@@ -150,6 +150,16 @@ CHECKS = {
         "note": "Trusted: Python ast, E1 resolver, scipy.linalg.block_diag, np.linalg.inv. Quadratic-form statements are conditional on symmetric neighbour lists.",
         "technique": "static analysis: abstract evaluation of kernels + set equality of canonical update forms (update-shape rule); scheme-to-util wiring; no-cache side condition; block assembly rule",
     },
+    "C14": {
+        "text": "Decides, for all source / target shapes, kernels, masks, scales, origins: resized_array_2d_from copies destination (i, j) from source (i + floor(H/2) - floor(R0/2), j + floor(W/2) - floor(R1/2)) exactly when inside both arrays (each index "
+                "tested against its own axis), writes pad_value exactly when the source cell is outside, spans 2 floor(R/2) + 1 >= R destination cells, and returns the requested shape; a parity case analysis of the computed offset form shows "
+                "offset = (N - R)/2 whenever parity is preserved - the condition for a surviving pixel to keep its scaled coordinate under the C02 centre formula; padding enlarges each axis by its own K - 1, trimming cuts ceil(K/2) - 1 per own axis, "
+                "and pad-then-trim for odd K is the identity window with the mask cropped by the same offset (parity algebra); Array2D / Mask2D resize rebuild on the parent's pixel scales AND origin; the automatic padding in Imaging pads data and noise map "
+                "identically; the zoom window is never shifted (cell (i, j) = source (y0 + i, x0 + j) when it exists), equals zoom region +/- buffer, and the zoom region is the bounding box of the unmasked pixels, only ever widened. "
+                "Not decided: the half-pixel choice for mixed parities (left open by the property).",
+        "note": "Trusted: Python ast, E1 resolver, numpy slicing, int(x/2) = floor(x/2) for non-negative extents.",
+        "technique": "static analysis: abstract evaluation to polynomial normal forms; exhaustive parity-domain case analysis of floor-division forms; normalised bounds comparison; wiring rule",
+    },
 }
 
 NOT_APPLICABLE = {f"C{n:02d}": PENDING for n in range(1, 21) if f"C{n:02d}" not in CHECKS}
